@@ -493,13 +493,33 @@ func c15absoluteNotJoined(c *an.Ctx) {
 	}
 	info := f.Info()
 	nameParam, sibParam := f.Sig.Params().At(0), f.Sig.Params().At(1)
+	// (a helper's parameter stands for what getSiblingTemplate binds it to)
+	resolveObj := func(id *ast.Ident) types.Object {
+		obj := an.ObjOf(info, id)
+		for depth := 0; depth < 3; depth++ {
+			v, ok := obj.(*types.Var)
+			if !ok {
+				break
+			}
+			binds := p.HelperBinds(f)[v]
+			if len(binds) != 1 {
+				break
+			}
+			bid, ok := an.Unparen(binds[0].Arg).(*ast.Ident)
+			if !ok {
+				break
+			}
+			obj = an.ObjOf(info, bid)
+		}
+		return obj
+	}
 	mentions := func(e ast.Expr, v *types.Var, depth int) bool {
 		found := false
 		var walk func(e ast.Expr, depth int)
 		walk = func(e ast.Expr, depth int) {
 			ast.Inspect(e, func(n ast.Node) bool {
 				if id, ok := n.(*ast.Ident); ok {
-					obj := an.ObjOf(info, id)
+					obj := resolveObj(id)
 					if obj == types.Object(v) {
 						found = true
 					} else if lv, ok := obj.(*types.Var); ok && depth < 3 && !lv.IsField() && lv.Parent() != lv.Pkg().Scope() {
@@ -522,13 +542,13 @@ func c15absoluteNotJoined(c *an.Ctx) {
 			switch an.CalleeName(info, call) {
 			case "path.IsAbs", "filepath.IsAbs":
 				if len(call.Args) == 1 {
-					if id, ok := an.Unparen(call.Args[0]).(*ast.Ident); ok && an.ObjOf(info, id) == types.Object(nameParam) {
+					if id, ok := an.Unparen(call.Args[0]).(*ast.Ident); ok && resolveObj(id) == types.Object(nameParam) {
 						absTests = append(absTests, call)
 					}
 				}
 			case "strings.HasPrefix":
 				if len(call.Args) == 2 {
-					if id, ok := an.Unparen(call.Args[0]).(*ast.Ident); ok && an.ObjOf(info, id) == types.Object(nameParam) {
+					if id, ok := an.Unparen(call.Args[0]).(*ast.Ident); ok && resolveObj(id) == types.Object(nameParam) {
 						if tv, ok := info.Types[call.Args[1]]; ok && tv.Value != nil && tv.Value.ExactString() == `"/"` {
 							absTests = append(absTests, call)
 						}
